@@ -3071,6 +3071,7 @@ type acknowledgementResult struct {
 // The caller should hold the lock.
 func (a *Association) processAcknowledgement(
 	selectiveAckChunk *chunkSelectiveAck,
+	applyAdvertisedWindow bool,
 ) (acknowledgementResult, error) {
 	if sna32GT(a.cumulativeTSNAckPoint, selectiveAckChunk.cumulativeTSNAck) {
 		// RFC 4960 sec 6.2.1.  Processing a Received SACK
@@ -3117,6 +3118,13 @@ func (a *Association) processAcknowledgement(
 		a.onCumulativeTSNAckPointAdvanced(totalBytesAcked)
 	}
 
+	if applyAdvertisedWindow {
+		// The lock is released around the callbacks below and a write made there can
+		// reach the write loop at once: it must not find the acknowledged bytes gone
+		// while rwnd is still the one from before this SACK.
+		a.setRWNDFromAdvertised(selectiveAckChunk.advertisedReceiverWindowCredit)
+	}
+
 	for si, nBytesAcked := range bytesAckedPerStream {
 		if s, ok := a.streams[si]; ok {
 			a.lock.Unlock()
@@ -3139,6 +3147,17 @@ func (a *Association) processAcknowledgement(
 		cumTSNAckPointAdvanced:  cumTSNAckPointAdvanced,
 		deliveredFound:          deliveredFound,
 	}, nil
+}
+
+// setRWNDFromAdvertised sets rwnd to a_rwnd minus the bytes still outstanding.
+// The caller should hold the lock.
+func (a *Association) setRWNDFromAdvertised(advertisedWindow uint32) {
+	bytesOutstanding := uint32(a.inflightQueue.getNumBytes()) //nolint:gosec // G115
+	if bytesOutstanding >= advertisedWindow {
+		a.setRWND(0)
+	} else {
+		a.setRWND(advertisedWindow - bytesOutstanding)
+	}
 }
 
 // finishAcknowledgement applies acknowledgement processing that does not
@@ -3201,7 +3220,7 @@ func (a *Association) handleSack(selectiveAckChunk *chunkSelectiveAck) error {
 
 	a.stats.incSACKsReceived()
 
-	result, err := a.processAcknowledgement(selectiveAckChunk)
+	result, err := a.processAcknowledgement(selectiveAckChunk, true)
 	if err != nil || !result.processed {
 		return err
 	}
@@ -3297,7 +3316,7 @@ func (a *Association) processShutdownAcknowledgement(c *chunkShutdown) error {
 	// RFC 9260 Section 9.2 permits SHUTDOWN to cumulatively acknowledge
 	// contiguous DATA without a separate SACK.
 	ack := &chunkSelectiveAck{cumulativeTSNAck: c.cumulativeTSNAck}
-	result, err := a.processAcknowledgement(ack)
+	result, err := a.processAcknowledgement(ack, false)
 	if err != nil {
 		return err
 	}
